@@ -1617,7 +1617,7 @@ def register_other_nodes(reg):
                 eng.check(f"{name}#ensures.{clause}", val)
             eng.check(f"{name}#ensures.everything_evaluated_in_the_given_context", all(c is env.vars["_ctx"] for _, c in I.vic_log))
 
-        reg.add(C.Contract(f"{D}:{cn}.evaluateInner", params=dict(self=C.Obj(f"{D}:{cn}"), context=C.Const(None)), setup=setup, post=post, properties=("C05",)))
+        reg.add(C.Contract(f"{D}:{cn}.evaluateInner", params=dict(self=C.Obj(f"{D}:{cn}"), context=C.Const(None)), setup=setup, post=post, replay=make_replay_eval_inner(cn), properties=("C05",)))
 
     def seq_is(got, keys, V):
         got = tuple(got) if isinstance(got, tuple) else tuple(getattr(got, "items", ()))
@@ -1669,6 +1669,68 @@ def register_other_nodes(reg):
     )
     make_eval_inner("Range", dict(low="lazy", high="lazy"), lambda c, V, m: [("low_and_high_correspond", c["low"] is V(m["low"]) and c["high"] is V(m["high"]) and V(m["low"]) is not V(m["high"]))])
     make_eval_inner("Normal", dict(mean="lazy", stddev="lazy"), lambda c, V, m: [("mean_and_stddev_correspond", c["mean"] is V(m["mean"]) and c["stddev"] is V(m["stddev"]) and V(m["mean"]) is not V(m["stddev"]))])
+
+
+def make_replay_eval_inner(cn):
+    """The real node of class `cn` over lazily evaluated operands, evaluated in a real context; every constructor
+    argument of the rebuilt node is compared with the context value of the corresponding operand (or the unchanged
+    constant), and the rebuilt node is sampled where that is cheap."""
+
+    def replay(inputs, clause):
+        import scenic.core.distributions as d
+        from scenic.core.lazy_eval import DelayedArgument, LazilyEvaluable
+
+        lazy = lambda v: DelayedArgument((), lambda context, v=v: v, _internal=True)
+        ctx = LazilyEvaluable.makeContext()
+
+        def fn(*a, **k):
+            return ("called", a, tuple(sorted(k.items())))
+
+        class Host:
+            width = "the width"
+
+            def meth(self, *a, **k):
+                return ("method", a, tuple(sorted(k.items())))
+
+        host = Host()
+        if cn == "FunctionDistribution":
+            node = d.FunctionDistribution(lazy(fn), (lazy(1), lazy(2)), {"beta": lazy(3), "alpha": lazy(4)})
+            want = dict(function=fn, arguments=(1, 2), kwargs={"beta": 3, "alpha": 4})
+        elif cn == "MethodDistribution":
+            node = d.MethodDistribution(Host.meth, lazy(host), (lazy(1), lazy(2)), {"beta": lazy(3), "alpha": lazy(4)})
+            want = dict(method=Host.meth, object=host, arguments=(1, 2), kwargs={"beta": 3, "alpha": 4})
+        elif cn == "AttributeDistribution":
+            node = d.AttributeDistribution("width", lazy(host))
+            want = dict(attribute="width", object=host)
+        elif cn == "TupleDistribution":
+            node = d.TupleDistribution(lazy(1), lazy(2), lazy(3), builder=list)
+            want = dict(builder=list, coordinates=(1, 2, 3))
+        elif cn == "SliceDistribution":
+            node = d.SliceDistribution(lazy(1), lazy(7), lazy(2))
+            want = dict(start=1, stop=7, step=2)
+        elif cn == "StarredDistribution":
+            node = d.StarredDistribution(lazy((1, 2)), 11)
+            want = dict(value=(1, 2), lineno=11)
+        elif cn == "Range":
+            node = d.Range(lazy(1.0), lazy(2.0))
+            want = dict(low=1.0, high=2.0)
+        elif cn == "Normal":
+            node = d.Normal(lazy(1.0), lazy(2.0))
+            want = dict(mean=1.0, stddev=2.0)
+        else:
+            return None
+        res = node.evaluateInner(ctx)
+        if type(res) is not type(node):
+            return f"{cn}.evaluateInner built a {type(res).__name__}"
+        for f, w in want.items():
+            g = getattr(res, f)
+            if isinstance(w, tuple) and isinstance(g, (tuple, list)):
+                g = tuple(g)
+            if g is not w and g != w:
+                return f"{cn}.evaluateInner over lazily evaluated operands: rebuilt node has {f} = {g!r}, expected {w!r} (the context value of the corresponding operand, constants unchanged)"
+        return None
+
+    return replay
 
 
 def make_replay_call_node(cn, is_method):
